@@ -16,7 +16,7 @@ import vlib
 from props import ren_common as rc
 
 GROUP = 'ren'
-TRUSTED = ['tools/c2clite.py + clang -ast-dump=json (syntax printer of find/uc_isdw/uc_iszw/uc_wid/uc_isbell/uc_acomb and of the range tables) and the C semantics fixed in coq/CLite.v',
+TRUSTED = ['tools/c2clite.py + clang -ast-dump=json (syntax printer of find/uc_isdw/uc_iszw/uc_wid/uc_isbell/uc_acomb, uc_chop, pos_next/pos_prev, ren_noeol/ren_off/ren_pos/ren_next/ren_cursor, ren_cwid/ren_placeholder/conf_placeholder/ren_position, of the range tables and of the placeholder table with its string literals) and the C semantics fixed in coq/CLite.v (incl. malloc/free)',
            'the recorded answers of rset_find (dir.c marks) are replayed to the model as its matcher oracle; the regex engine itself is outside C17',
            'tools/props/ren_common.py parses the generated Coq tables for the Python oracle']
 
